@@ -110,15 +110,15 @@ func Prefix2bin128(prefix netip.Prefix) (bin128 string) {
 loop:
 	for i := range len(ip) {
 		for j := 7; j >= 0; j-- {
+			if n == 0 {
+				break loop
+			}
 			if (ip[i]>>j)&1 == 1 {
 				_ = buf.WriteByte('1')
 			} else {
 				_ = buf.WriteByte('0')
 			}
 			n--
-			if n == 0 {
-				break loop
-			}
 		}
 	}
 	return buf.String()
